@@ -58,11 +58,16 @@ struct BNode {
 fn explore_block(u: &BlockUniverse, st: &Stats, batches: bool) {
     let n = u.esis.len();
     let mut memo: HashMap<u32, Option<bool>> = HashMap::new();
-    let mut seen: HashMap<BKey, usize> = HashMap::new();
+    // canonical key -> nodes with that key. Normally one; if the decoder carries state that is not a function
+    // of the key (hidden state), objects with equal keys but unequal contents are kept as distinct states.
+    let mut seen: HashMap<BKey, Vec<usize>> = HashMap::new();
     let mut nodes: Vec<BNode> = vec![];
     let mut queue: VecDeque<usize> = VecDeque::new();
+    let mut hidden_state_splits = 0u64;
+    let mut deficient_with_k = 0u64;
+    const STATE_CAP: usize = 400_000;
     let d0 = new_block_decoder(u.k, 1, Some(u.threshold));
-    seen.insert(d0.verif_canonical_state(), 0);
+    seen.insert(d0.verif_canonical_state(), vec![0]);
     nodes.push(BNode { dec: d0, mask: 0, path: vec![] });
     queue.push_back(0);
     let (mut transitions, mut revisits, mut dup_transitions, mut after_completion, mut batch_checks) = (0u64, 0u64, 0u64, 0u64, 0u64);
@@ -99,23 +104,27 @@ fn explore_block(u: &BlockUniverse, st: &Stats, batches: bool) {
             if key.2 != nsrc || key.3 != nsrc || key.0.len() != mask.count_ones() as usize {
                 report(&path, format!("counting invariant broken: received_source_symbols={} stored={} distinct source ESIs={} distinct ESIs={} (set size {})", key.2, key.3, nsrc, key.0.len(), mask.count_ones()));
             }
-            match seen.get(&key) {
-                Some(&j) => {
-                    revisits += 1;
-                    // the key must be the exact state: confirm with the real object's own equality
-                    if nodes[j].dec != d {
-                        machinery_failure(&format!("C08: canonical key is not the exact state (K={} path {:?})", u.k, path));
-                    }
-                    if nodes[j].mask != mask {
-                        machinery_failure("C08: same canonical key for different packet sets");
-                    }
+            if !want && mask.count_ones() >= u.k {
+                deficient_with_k += 1;
+            }
+            let entry = seen.entry(key).or_default();
+            // confirm every merge with the real object's own equality
+            if let Some(&j) = entry.iter().find(|&&j| nodes[j].dec == d) {
+                revisits += 1;
+                if nodes[j].mask != mask {
+                    machinery_failure("C08: equal decoder objects for different packet sets");
                 }
-                None => {
-                    let j = nodes.len();
-                    seen.insert(key, j);
-                    nodes.push(BNode { dec: d, mask, path });
-                    queue.push_back(j);
+            } else {
+                if !entry.is_empty() {
+                    hidden_state_splits += 1;
                 }
+                if nodes.len() >= STATE_CAP {
+                    machinery_failure(&format!("C08: state space of K={} universe {:?} not closed within {} states (unbounded hidden state?)", u.k, u.esis, STATE_CAP));
+                }
+                let j = nodes.len();
+                entry.push(j);
+                nodes.push(BNode { dec: d, mask, path });
+                queue.push_back(j);
             }
         }
     }
@@ -164,6 +173,8 @@ fn explore_block(u: &BlockUniverse, st: &Stats, batches: bool) {
     st.count("block_transitions_after_completion", after_completion);
     st.count("block_state_revisits_confirmed_equal", revisits);
     st.count("block_batch_checks", batch_checks);
+    st.count("block_states_split_by_hidden_state", hidden_state_splits);
+    st.count("block_transitions_into_rank_deficient_sets_with_K_or_more_symbols", deficient_with_k);
     st.count("abstract_sets_decodable", memo.values().filter(|v| **v == Some(true)).count() as u64);
     st.count("abstract_sets_undecodable", memo.values().filter(|v| **v == Some(false)).count() as u64);
     st.note(format!("block K={} universe {:?} threshold {}: {} states, {} transitions, {} batch checks", u.k, u.esis, u.threshold, nodes.len(), transitions, batch_checks));
@@ -304,11 +315,11 @@ fn explore_object(u: &ObjUniverse, st: &Stats) {
     // NOTE: the real state does not record packets that arrive for an already completed block, so the
     // abstract set of a node is "packets that were delivered"; two paths with different sets can share a
     // real state. The oracle therefore is evaluated per transition with the path's own set.
-    let mut seen: HashMap<OKey, usize> = HashMap::new();
+    let mut seen: HashMap<OKey, Vec<usize>> = HashMap::new();
     let mut nodes: Vec<(Decoder, u64, Vec<usize>)> = vec![];
     let mut queue: VecDeque<usize> = VecDeque::new();
     let d0 = Decoder::new(u.oti);
-    seen.insert(obj_key(&d0), 0);
+    seen.insert(obj_key(&d0), vec![0]);
     nodes.push((d0, 0, vec![]));
     queue.push_back(0);
     let mut transitions = 0u64;
@@ -347,18 +358,15 @@ fn explore_object(u: &ObjUniverse, st: &Stats) {
                 }
             }
             let key = obj_key(&d1);
-            match seen.get(&key) {
-                Some(&j) => {
-                    revisits += 1;
-                    if nodes[j].0 != d1 { machinery_failure("C08 object: canonical key is not the exact state"); }
-                    // keep the union-free invariant: the stored mask is only used as a representative
-                }
-                None => {
-                    let j = nodes.len();
-                    seen.insert(key, j);
-                    nodes.push((d1, mask, path));
-                    queue.push_back(j);
-                }
+            let entry = seen.entry(key).or_default();
+            if entry.iter().any(|&j| nodes[j].0 == d1) {
+                revisits += 1; // the stored mask of the representative is only used as a representative
+            } else {
+                if nodes.len() >= 400_000 { machinery_failure("C08 object: state space not closed within 400000 states"); }
+                let j = nodes.len();
+                entry.push(j);
+                nodes.push((d1, mask, path));
+                queue.push_back(j);
             }
         }
     }
@@ -434,6 +442,20 @@ pub fn run(ctx: &Ctx) -> i32 {
     } else {
         vec![((9, 2, 2, 2, 1), 2), ((11, 2, 3, 1, 1), 2), ((5, 1, 2, 1, 1), 3), ((23, 4, 3, 2, 2), 1), ((7, 1, 3, 1, 1), 2)]
     };
+    // a universe that is known (reference rank oracle) to contain a rank-deficient set of exactly K symbols:
+    // histories "deficient set, then one more symbol" exist by construction
+    {
+        let sp = crate::c07::specials();
+        let deficient = &sp[0].1; // 10 ESIs, rank-deficient
+        let mut rep: Vec<u32> = deficient.iter().copied().filter(|&e| e >= 10).collect();
+        rep.sort_unstable();
+        if rep.len() <= 6 {
+            blocks.push((10, rep.clone(), 250, false));
+            if ctx.thorough() {
+                blocks.push((10, rep, 0, false));
+            }
+        }
+    }
     let nb = blocks.len();
     par_for(nb + objs.len() + 2, |w| {
         if w < nb {
@@ -461,6 +483,6 @@ pub fn run(ctx: &Ctx) -> i32 {
         exhaustive: true,
         assumptions: vec!["closure is relative to the fixed packet universes listed in notes; packets are the encoder's own (equal ESI implies equal payload)".into()],
         extra: Map::new(),
-        must_be_nonzero: vec!["block_states", "block_transitions_duplicate_packet", "block_transitions_after_completion", "block_batch_checks", "object_states", "uncloned_original_steps", "abstract_sets_decodable", "abstract_sets_undecodable", "block_state_revisits_confirmed_equal"],
+        must_be_nonzero: vec!["block_states", "block_transitions_duplicate_packet", "block_transitions_after_completion", "block_batch_checks", "object_states", "uncloned_original_steps", "abstract_sets_decodable", "abstract_sets_undecodable", "block_state_revisits_confirmed_equal", "block_transitions_into_rank_deficient_sets_with_K_or_more_symbols"],
     }, replay)
 }
